@@ -247,7 +247,7 @@ def encode_sym_rows(q, rs, L, rows, wire_of, ctx):
     q.add(f"(= {q.var(xe.wname(1))} 1)")
     for i in rows:
         for cname, c in row_polys(rs, L, i, wire_of):
-            q.add(q.zero(c))
+            q.add(q.zero(c, positive=True))
 
 
 # ---- documented relations as small formula ASTs:
